@@ -1,5 +1,4 @@
 CONSTANTS MaxView = 2 ByzBudget = 6 Blocks <- cBlocks Hdr <- cHdr Dev = {}
 INIT Init
 NEXT Next
-CONSTRAINT EmitEvent
 CHECK_DEADLOCK FALSE
